@@ -54,7 +54,8 @@ fn sim_main() -> i32 {
             match fastpasta::init_processing(Cfg::global(), readable, stat_send_chan, stop_flag) {
                 Ok(_) => 0,
                 Err(e) => {
-                    log::error!("Init processing failed: {e}");
+                    // target: the logger only shows records of the `fastpasta` module tree
+                    log::error!(target: "fastpasta::init", "Init processing failed: {e}");
                     1
                 }
             }
